@@ -64,6 +64,10 @@ fn build(walls: &[usize], wins: &[usize], tbs: &[usize], nil_space: bool) -> Mod
         if k == 1 {
             w.geometry.azimuth = 90.0;
         }
+        if (o + k) % 3 == 1 {
+            // a user U-value does not make the construction link of the wall any less of a link
+            m.overrides.walls.insert(w.id, WallPropsOverrides { u_value: Some(0.35), ..Default::default() });
+        }
         m.walls.push(w);
     }
     for (k, o) in wins.iter().enumerate() {
@@ -76,7 +80,11 @@ fn build(walls: &[usize], wins: &[usize], tbs: &[usize], nil_space: bool) -> Mod
             0 => winc,
             _ => if k == 0 { wc } else { uid("absent-wincons") },
         };
-        m.windows.push(window(&format!("v{k}"), cons, wl, Some([1.0, 1.0]), 1.0, 1.0, 0.0));
+        let v = window(&format!("v{k}"), cons, wl, Some([1.0, 1.0]), 1.0, 1.0, 0.0);
+        if (o + k) % 2 == 1 {
+            m.overrides.windows.insert(v.id, WinPropsOverrides { u_value: Some(1.1), f_shobst: Some(0.5), ..Default::default() });
+        }
+        m.windows.push(v);
     }
     for (k, o) in tbs.iter().enumerate() {
         m.thermal_bridges.push(ThermalBridge {
@@ -278,7 +286,7 @@ pub fn run(ctx: &Ctx) -> i32 {
     }
     ctx.finish(
         "model_checking",
-        &format!("full product (an 'absent' id is an id of another collection for the first element of a kind and a fresh id for the second): 0..2 walls x (space{{ok,absent,nil}} x cons{{ok,absent,nil}} x next_to{{None,ok,absent,nil}}, the boundary kind cycling through INTERIOR/EXTERIOR/ADIABATIC/GROUND so that every (next_to option, kind) pair occurs) x 0..{} windows x (wall{{ok,absent,nil}} x cons{{ok,absent}}) x 0..{} bridges x l{{-1,-0.0,0,2,-0.004,-1e-30}} x {{no space with nil id, one}}; oracle = number of broken links per element id (reference: set membership, l<0), compared with the number of warnings carrying that id; every 97th model also: JSON unchanged by check(), the histories check -> {{remove last space, remove first construction, add a space and move a wall into it, remove first wall}} -> check on a clone of the checked model, energy_indicators().warnings == check(); + 7 shipped models; non-trivial = at least one broken link expected", 2, ctx.tier.pick(1, 2)),
+        &format!("full product (an 'absent' id is an id of another collection for the first element of a kind and a fresh id for the second): 0..2 walls x (space{{ok,absent,nil}} x cons{{ok,absent,nil}} x next_to{{None,ok,absent,nil}}, the boundary kind cycling through INTERIOR/EXTERIOR/ADIABATIC/GROUND so that every (next_to option, kind) pair occurs) x 0..{} windows x (wall{{ok,absent,nil}} x cons{{ok,absent}}) x 0..{} bridges x l{{-1,-0.0,0,2,-0.004,-1e-30}} x {{no space with nil id, one}}; user U / obstruction overrides on some of the walls and windows; oracle = number of broken links per element id (reference: set membership, l<0), compared with the number of warnings carrying that id; every 97th model also: JSON unchanged by check(), the histories check -> {{remove last space, remove first construction, add a space and move a wall into it, remove first wall}} -> check on a clone of the checked model, energy_indicators().warnings == check(); + 7 shipped models; non-trivial = at least one broken link expected", 2, ctx.tier.pick(1, 2)),
         true,
         json!({"space_size": n}),
     )
